@@ -7,6 +7,7 @@ namespace Dns
 /-- one step of a hand-written RDATA parser (`func (rr *T) parse`) or printer (`func (rr *T) String`) -/
 inductive TStep where
   | uint (bits : Nat)       -- `strconv.ParseUint(l.token, 10, bits)` / `strconv.Itoa(int(rr.F))` with F a uint<bits> field
+  | uintTtl (strict : Bool) -- `ParseUint(l.token, 10, 32)`, else (unless strict) `stringToTTL(l.token)`: the numbers of an SOA record
   | uintAlg                 -- a DNSSEC algorithm: `ParseUint(l.token, 10, 8)`, else the mnemonic in `StringToAlgorithm`
   | tok                     -- the token as it is (`rr.F = l.token` behind an `l.err` check)
   | name                    -- `toAbsoluteName(l.token, o)` / `sprintName(rr.F)`
